@@ -13,6 +13,7 @@ S21, S29, S32, S35) on the real code. The model follows /repo after the repairs 
 -/
 import SwimVerif.Proofs.FormReset
 import SwimVerif.Model.FormIO
+import SwimVerif.Proofs.MsgPackBytes
 
 set_option linter.unusedVariables false
 namespace SwimVerif.Form
@@ -285,3 +286,65 @@ theorem C16_vec_elements_independent (t : Ty) (vs : List Val) :
     rw [this]; rfl
 
 end SwimVerif.Form
+
+/-! ## MessagePack byte model (`Model/MsgPack.lean`): generic `Value` path of `swimos_msgpack` -/
+
+namespace SwimVerif.MsgPack
+open SwimVerif.Recon
+
+/-- Map and array headers (`write_map_len` / `write_array_len`, FixMap/Map16/Map32, FixArray/Array16/Array32) of every
+length `< 2^32` are read back exactly, leave the rest, and a map marker is never an array marker. -/
+theorem C16_msgpack_headers_roundtrip : LenRT := lenRT
+
+/-- The structural part of the round trip, for ALL values (records with attributes, map / array / mixed bodies, slots
+as 2-arrays, nesting) by mutual induction over `Value`/`Attrs`/`Items`: if the primitive tokens and attribute names
+round-trip (`PrimRT`, `NameRT`), then the reader with any fuel `≥ depthV v` reads `write v ++ rest` as
+`(mpNorm v, rest)` — the written value up to the re-kinding of machine integers, consuming exactly the bytes written. -/
+theorem C16_msgpack_value_roundtrip_of_tokens (hp : PrimRT) (hn : NameRT) :
+    ∀ v, mpOk v = true → ∀ rest f, depthV v ≤ f → rdV f (wV v ++ rest) = some (mpNorm v, rest) :=
+  fun v hok rest f hf => ((goodV hp hn lenRT v) hok).2 f rest hf
+
+/-- Why a value item of an array body is never mistaken for a slot (`SLOT_MARKER = FixArray(2)`): no written value
+starts with an array marker. -/
+theorem C16_msgpack_value_never_starts_with_array (hp : PrimRT) (hn : NameRT) :
+    ∀ v, mpOk v = true → ∃ m r, wV v = m :: r ∧ isArrMarker m = false :=
+  fun v hok => ((goodV hp hn lenRT v) hok).1
+
+/-- Open: the token level (`write_sint`/`write_u64` ↔ the ten integer markers, str/bin/ext size classes, UTF-8,
+big-integer magnitudes).  Exercised by the correspondence engine `form-msgpack` only. -/
+def C16_msgpack_tokens_open : Prop := PrimRT ∧ NameRT
+
+/-- Open (follows from `C16_msgpack_tokens_open`, `depthV v ≤ (wV v).length` and `mpOk v → wFits v`). -/
+def C16_msgpack_value_roundtrip_open : Prop :=
+  ∀ v, mpOk v = true → ∀ rest, ∃ bs, mpWrite v = some bs ∧ mpRead (bs ++ rest) = some (mpNorm v, rest)
+
+/-- Open: a strict prefix of a written value is an error, never a different value. -/
+def C16_msgpack_truncated_rejected_open : Prop :=
+  ∀ v, mpOk v = true → ∀ bs, mpWrite v = some bs → ∀ p, p.length < bs.length → bs.take p.length = p → mpRead p = none
+
+/-- Non-vacuity: a nested record with attributes, a map body inside an array body, a slot with a non-text key. -/
+def exRec : Value :=
+  .record (.cons ['a'] (.int .u32 300) (.cons ['é'] (.record .nil (.slot (.int .i32 1) (.bool true) .nil)) .nil))
+    (.val (.int .i64 (-129)) (.slot (.text ['k']) (.record .nil (.val .extant .nil)) (.val (.data [1, 2, 255]) .nil)))
+
+example : mpOk exRec = true := by decide
+example : mpWrite exRec = some [130, 161, 97, 205, 1, 44, 162, 195, 169, 128, 129, 1, 195, 147, 209, 255, 127, 146, 161,
+    107, 128, 145, 192, 196, 3, 1, 2, 255] := by decide
+example : mpRead ([130, 161, 97, 205, 1, 44, 162, 195, 169, 128, 129, 1, 195, 147, 209, 255, 127, 146, 161,
+    107, 128, 145, 192, 196, 3, 1, 2, 255] ++ [7, 7]) = some (mpNorm exRec, [7, 7]) := by decide
+/-- a big integer beyond `u64` (2^64 = 9 magnitude bytes, ext8 of 10 bytes, type 0, sign byte 1) and its negative -/
+example : mpWrite (.int .big 18446744073709551616) = some [199, 10, 0, 1, 1, 0, 0, 0, 0, 0, 0, 0, 0] := by decide
+example : mpRead [199, 10, 0, 0, 1, 0, 0, 0, 0, 0, 0, 0, 0, 9] = some (.int .big (-18446744073709551616), [9]) := by
+  decide
+-- a 300-byte text: str16
+set_option maxRecDepth 8000 in
+example : (mpWrite (.text (List.replicate 300 'a'))).map (fun bs => (bs.take 3, bs.length)) = some ([218, 1, 44], 303) := by
+  decide
+set_option maxRecDepth 8000 in
+example : mpRead (218 :: 1 :: 44 :: (List.replicate 300 97 ++ [5])) = some (.text (List.replicate 300 'a'), [5]) := by
+  decide
+/-- every strict prefix of the written record is rejected -/
+example : ∀ k, k < 28 → mpRead (([130, 161, 97, 205, 1, 44, 162, 195, 169, 128, 129, 1, 195, 147, 209, 255, 127, 146, 161,
+    107, 128, 145, 192, 196, 3, 1, 2, 255] : List Nat).take k) = none := by decide
+
+end SwimVerif.MsgPack
